@@ -24,7 +24,7 @@ Plan gen_lockstep(uint64_t seed, int tier, int flavour) {
     p.ops.push_back(mkop("CTL", {d.req, v}));
   };
   auto push_src = [&]() {
-    int fam = r.weighted({2, 1, 4, 2, 5, 3, 1, 2, 2, flavour == 0 ? 2 : 0, 1, 1, 4});
+    int fam = r.weighted({2, 1, 4, 2, 5, 3, 1, 2, 2, flavour == 0 ? 2 : 0, 1, 1, 4, 1, 1, 2});
     int amp = r.pick({1, 10, 100, 300, 300, 500, 900, 1000, 1000, 2000});
     p.ops.push_back(mkop("SRC", {fam, r.pick({60, 110, 220, 440, 1000, 3000, 7000, 15000}), amp, r.range(1, 1000), r.range(0, 1000)}));
   };
